@@ -382,7 +382,7 @@ def _gf_paths(P, R, rule, keys):
 
 # =================================================================================================================== R02-b
 def r02b(P, R):
-    _sections(P, R, "R02-b", _b_literal_table, _b_literal_source, _b_branch_name, _b_flag)
+    _sections(P, R, "R02-b", _b_literal_table, _b_literal_source, _b_branch_name, _b_flag, _b_flag_paths)
 
 
 def _b_literal_table(P, R):
@@ -424,6 +424,39 @@ def _b_literal_table(P, R):
                 return
     _tri(R, "R02-b", "typename-literal:table", True if seen else None, "table: `__typename` is the string literal of the branch's own object type, under an alias too",
          und="no path of %s returns normally on this input" % f.path, loc=f.loc())
+
+
+def _b_flag_paths(P, R):
+    """on every abstract path of the field collector, a leaf is flagged as the `__typename` meta field exactly when the path took the *field name*
+    to be `__typename`; the response key (alias) is never asked"""
+    G = _gf_paths(P, R, "R02-b", ["typename-flag:paths"])
+    if G is None:
+        return
+    gf, paths, names = G
+    FN, FA = ("field", A + "selection_set::Field", "name"), ("field", A + "selection_set::Field", "alias")
+    seen, bad = 0, None
+    for st, v, evs in paths:
+        if st != "ok" or not isinstance(_d(v), list) or any(e[0] == "call" and e[1] == names["gf"] for e in evs):
+            continue
+        tn = [(e[0], FN in e[1] and FA not in e[1], FA in e[1]) for e in evs if e[0] in ("assume", "assume-not") and e[2] == "__typename"]
+        for x in _d(v):
+            x = _d(x)
+            fld = _d(x.args[0]) if isinstance(x, _Var) and x.name in ("Left", "Right") and x.args else None
+            if not (isinstance(fld, _Var) and fld.name == "Leaf" and isinstance(_d(fld.args[0]), _Obj)):
+                continue
+            flag = _d(_d(fld.args[0]).f.get("is_typename"))
+            if not isinstance(flag, bool):
+                continue
+            seen += 1
+            if any(by_alias for _, _, by_alias in tn):
+                bad = "asks whether the response key (the alias) is `__typename`"
+            elif flag and not any(k == "assume" and by_name for k, by_name, _ in tn):
+                bad = "flags a leaf although the field name was not found to be `__typename`"
+            elif not flag and not any(k == "assume-not" and by_name for k, by_name, _ in tn):
+                bad = "leaves a leaf unflagged without having excluded that the field name is `__typename`"
+    _tri(R, "R02-b", "typename-flag:paths", None if not seen else bad is None, "paths: a leaf is the `__typename` meta field exactly when its field name is `__typename`",
+         "paths: %s %s: `kind: __typename` is typed as a plain string (any string, or another branch's type name, is admitted) and `__typename: name` as the "
+         "object-name literal" % (gf.path, bad), "no abstract path of %s builds a leaf with a determined `is_typename`" % gf.path, loc=gf.loc())
 
 
 def _b_literal_source(P, R):
@@ -912,7 +945,7 @@ def _fast_equal_sound(P, R, rule):
 # =================================================================================================================== R02-f
 def r02f(P, R):
     """only possible (type, variables) branches: type-condition filter and skip/include tables"""
-    _sections(P, R, "R02-f", _f_condition_table, _f_sites, _f_skip_table, _f_variables, _f_skip_coverage, _f_possible_types)
+    _sections(P, R, "R02-f", _f_condition_table, _f_sites, _f_skipped_fragment, _f_skip_table, _f_variables, _f_skip_coverage, _f_possible_types)
 
 
 def _f_condition_table(P, R):
@@ -1033,6 +1066,65 @@ def _f_sites(P, R):
         _tri(R, "R02-f", "type-condition:sites", True if len(seen) == 2 else None, "paths: fragment spreads and conditioned inline fragments are collected only under "
              "their type condition; an inline fragment without condition always applies",
              und="not both kinds of fragment are seen being collected on the abstract paths of %s (%s)" % (gf.path, sorted(seen)), loc=gf.loc())
+
+
+def _f_skipped_fragment(P, R):
+    """a fragment that is skipped as a whole contributes a `?: never` marker for every key it would contribute otherwise: on every abstract path that
+    takes the skip test of a fragment to be true, the keys come from the collector's own walk of the fragment's selection set — or, if they are
+    computed otherwise, no selection of that set is dropped without being descended into"""
+    G = _gf_paths(P, R, "R02-f", ["skip-table:skipped-fragment-keys"])
+    if G is None:
+        return
+    gf, paths, names = G
+    SEL = ("field", A + "selection_set::SelectionSet", "selections")
+    INNER = (("field", A + "operation::FragmentDefinition", "selection_set"), ("field", A + "selection_set::InlineFragment", "selection_set"))
+    FD = {("field", A + "selection_set::FragmentSpread", "directives"), ("field", A + "selection_set::InlineFragment", "directives")}
+    seen, bad = 0, None
+    for st, v, evs in paths:
+        if st != "ok":
+            continue
+        skipped = any(e[0] == "assume" and e[2] is True and ("eq",) not in e[1] and any(x[0] == "call" and x[1] == names["csd"] for x in e[1]) and FD & set(e[1]) for e in evs)
+        if not skipped:
+            continue
+        seen += 1
+        if any(e[0] == "call" and e[1] == names["gf"] and any(a in _origin(x) for x in e[2] for a in INNER) for e in evs):
+            continue
+        for i, e in enumerate(evs):
+            if e[0] == "elem" and SEL in e[1] and any(a in e[1] for a in INNER):
+                el = e[2].kids.get("#elem")
+                not_field = any(x[0] == "assume-not" and x[2] == "Field" and x[3] is el for x in evs) or (isinstance(el.ref, _Var) and el.ref.name != "Field")
+                deeper = any(x[0] in ("iter", "call") and (x[1] > el.origin if x[0] == "iter" else any(_origin(a) > el.origin for a in x[2])) for x in evs[i + 1:])
+                if not_field and not deeper:
+                    bad = True
+    _tri(R, "R02-f", "skip-table:skipped-fragment-keys", None if not seen else bad is None,
+         "paths: a skipped fragment yields a marker for every key the fragment contributes",
+         "paths: for a fragment whose @skip/@include excludes it, %s computes the `?: never` markers without its own walk of the fragment's selection set, and drops "
+         "a selection of that set that is not a field (a nested spread / inline fragment) without descending into it: the keys nested fragments contribute get no "
+         "marker, so the skipped branch admits objects that carry them" % gf.path,
+         "no abstract path of %s takes the skip test of a fragment to be true" % gf.path, loc=gf.loc())
+
+
+def _f_lookup_consistent(P):
+    """does the skip test read *one* value per variable?  With a branch that lists the (undetermined) variable $a twice, with different values, exactly one
+    of @skip(if: $a) / @include(if: $a) omits the selection (whichever entry the look-up takes) -> True; both or neither -> False; not read -> None"""
+    f = _csd(P)
+    out = []
+    for order in ((True, False), (False, True)):
+        res = {}
+        for d in ("skip", "include"):
+            def thunk(ab, d=d, order=order):
+                n = _Opq("$a")
+                br = _t_obj(P, BC, {"boolean_variables": [(n, order[0]), (n, order[1])]})
+                return ab.truth(ab.call(f.path, _params(f, [("BranchingCondition", br), ("Directive", [_t_directive(P, d, ("var", n))])])))
+            try:
+                vals = {v for st, v, _ in _Abs(P).explore(thunk) if st == "ok"}
+            except (_Unknown, KeyError, IndexError, TypeError, AttributeError, RecursionError, ValueError):
+                return None
+            if len(vals) != 1:
+                return None
+            res[d] = vals.pop()
+        out.append(res["skip"] != res["include"])
+    return all(out)
 
 
 def _f_skip_table(P, R):
@@ -1350,8 +1442,8 @@ def _f_product_table(P, R, rule, g0):
     with the variable enumeration replaced by those lists"""
     gbv = _role(P, OT + "type_printer::get_boolean_variables", ["QueryTypePrinterContext", "SelectionSet"], "Vec<&")
     imp = P.fn(PR + "utils::interface_implementers", required=False)
-    for names in (["a"], ["a", "b"], ["a", "a"]):
-        key = "variables-both-values:%d" % len(names) if names != ["a", "a"] else "variables-both-values:repeated"
+    for names in (["a"], ["a", "b"], ["a", "a"], ["a", "b", "a"]):
+        key = "variables-both-values:%d" % len(names) if len(set(names)) == len(names) else ("variables-both-values:repeated" if len(names) == 2 else "variables-one-value-per-branch")
         hooks = {gbv.path: lambda ab, args, names=names: list(names)}
         try:
             paths = _Abs(P, [gbv.path] + ([imp.path] if imp else []), hooks=hooks).explore(lambda ab: ab.call(g0.path, _params(g0, [])))
@@ -1362,7 +1454,7 @@ def _f_product_table(P, R, rule, g0):
             R.undecided(rule, key, "the abstract evaluation of %s does not decide the set of assignments (evaluator: %r)" % (g0.path, e), loc=g0.loc())
             continue
         want = {tuple(sorted(zip(sorted(set(names)), vs))) for vs in itertools.product((False, True), repeat=len(set(names)))}
-        seen, bad = 0, None
+        seen, bad, conflict = 0, None, False
         for st, v, evs in paths:
             if st != "ok" or not any(ev[0] == "assume" and ev[2] == "Object" and any(x[0] == "variant" and str(x[1]).endswith("TypeDefinition") for x in ev[3].ref.args[0].origin) for ev in evs if ev[0] == "assume" and isinstance(ev[3].ref, _Var) and ev[3].ref.args):
                 continue
@@ -1383,13 +1475,28 @@ def _f_product_table(P, R, rule, g0):
                     if not (isinstance(pair, tuple) and len(pair) == 2 and isinstance(_d(pair[0]), str) and isinstance(_d(pair[1]), bool)):
                         ok = False
                         break
-                    asg.setdefault(_d(pair[0]), _d(pair[1]))
+                    if asg.setdefault(_d(pair[0]), _d(pair[1])) != _d(pair[1]):
+                        conflict = True
                 got.add(tuple(sorted(asg.items())))
             if not ok:
                 continue
             seen += 1
             if got != want:
                 bad = got
+        if key == "variables-one-value-per-branch":
+            if not seen:
+                R.undecided(rule, key, "no abstract path of %s for an object parent returns a determined list of conditions" % g0.path, loc=g0.loc())
+            elif not conflict:
+                R.holds(rule, key, "table: a variable met again after another one (%s) is listed once per branch" % names, loc=g0.loc())
+            else:
+                c = _f_lookup_consistent(P)
+                _tri(R, rule, key, c, "table: a variable met again after another one is listed twice in a branch, but the skip test reads one entry per variable: the extra "
+                     "branches are duplicates",
+                     "table: for the variables %s, %s builds branches that list `a` twice with different values, and the skip test does not read one entry per "
+                     "variable: with (a, true) and (a, false) in one branch both @skip(if: $a) and @include(if: $a) omit their selection (or neither does) — an "
+                     "assignment no execution has, so the union gains impossible members" % (names, g0.path),
+                     "%s builds branches that list a variable twice with different values; whether the skip test reads one entry per variable is not decided" % g0.path, loc=g0.loc())
+            continue
         _tri(R, rule, key, None if not seen else bad is None, "table: an object parent with the variables %s gets exactly the %d assignments" % (names, len(want)),
              "table: for an object parent and the boolean variables %s, %s produces the assignments %s; every combination of false / true is needed (%d of them): a "
              "response for a missing combination has no branch" % (names, g0.path, sorted(bad) if bad is not None else "", len(want)),
@@ -2260,6 +2367,8 @@ class _Abs:
         """`a == b` over abstract values -> bool, or an undetermined boolean (the comparison of an undetermined boolean with a constant is
         that boolean or its negation; of an undetermined string / enum with a constant a fork)"""
         a, b = _d(a), _d(b)
+        if a is b and isinstance(a, _Opq):
+            return True       # (strings, names, booleans: equality is reflexive)
         e = _eq(a, b)
         if e is not None:
             return e
